@@ -190,6 +190,12 @@ CacheOf(d) == [n \in Ids(d) |-> <<d.nodes[n].cand, d.nodes[n].seeds, d.nodes[n].
 CacheMatches(x, got, e) ==
     IF e.op = "seeds" /\ e.fallback THEN TRUE ELSE CacheOf(x) = CacheOf(got)
 
+AggSeedsOK(got, out) ==
+    /\ \A n \in Ids(got) : got.nodes[n].expanded => got.nodes[n].seeds.k = 1
+    /\ {<<out[i][1], out[i][2]>> : i \in DOMAIN out}
+         = {<<n, got.nodes[n].seeds.v>> : n \in {m \in Ids(got) : got.nodes[m].expanded /\ got.nodes[m].seeds.v # <<>>}}
+    /\ Len(out) = Cardinality({m \in Ids(got) : got.nodes[m].expanded /\ got.nodes[m].seeds.v # <<>>})
+
 Mismatch(x, got, e) ==
     (IF x.adopt \/ e.exc = "Hang" THEN {} ELSE
        (IF IdFreeNodes(x.d) = IdFreeNodes(got) /\ IdFreeEdges(x.d) = IdFreeEdges(got) THEN {} ELSE {"STRUCT"})
@@ -207,6 +213,8 @@ Mismatch(x, got, e) ==
        \cup (IF e.op = "summary" /\ (e.raised \/ ~SummaryMatches(x.out, e.out)) THEN {"QUERY"} ELSE {})
        \cup (IF x.xl = e.xl THEN {} ELSE {"XL"})
        \cup (IF x.unsound THEN {"ORACLE"} ELSE {}))
+    \* expanded_attractor_seeds(): exactly the expanded nodes with a non-empty seed list, each with the list the node reports
+    \cup (IF e.op = "expseeds" /\ ~e.raised /\ ~AggSeedsOK(got, e.out) THEN {"QUERY"} ELSE {})
     \cup (IF e.exc = "Hang" THEN {"HANG"} ELSE {})
     \cup (IF LoopsOK(e) THEN {} ELSE {"LOOP"})
     \cup (IF LoopsMechOK(e) THEN {} ELSE {"LOOPMECH"})
